@@ -12,20 +12,25 @@ def conc(v, X):
     for p in v.pieces:
         if p[0] == "lit": out += p[1]
         else:
-            seg = X[p[1]: max(p[1], len(X) - p[2])] if True else ""
+            if p[0] == "head": out += X[:1]; continue
+            if p[0] == "tail": out += X[-1:]; continue
             seg = X[p[1]:len(X)-p[2]] if len(X)-p[2] >= p[1] else ""
             out += seg if p[0] == "raw" else re.escape(seg)
     return out
 def concint(v, X):
     return v.c + v.k * len(X) if isinstance(v, SymInt) else v
 ops = []
-for i in (None, 0, 1, 2):
+for i in (None, 0, 1, 2, -1):
     for j in (None, -1, -2, 0, 1, "len", "len-1", "len-2"):
         ops.append(("slice", i, j))
 for name in ("strip", "lstrip", "rstrip", "removeprefix", "removesuffix", "startswith", "endswith"):
     for arg in ("*", "**", ".*"):
         ops.append((name, arg))
 ops.append(("escape",))
+ops.append(("eq", "*"))
+ops.append(("eq", "a"))
+ops.append(("index", 0))
+ops.append(("index", -1))
 ops.append(("len",))
 def apply_sym(v, op, x):
     if isinstance(v, (bool, int)) or isinstance(v, SymInt): raise Unknown(None, "n/a")
@@ -42,6 +47,12 @@ def apply_sym(v, op, x):
         return v[lo:up]
     if op[0] == "escape": return sym_escape(v)
     if op[0] == "len": return sym_len(v) if isinstance(v, SymStr) else len(v)
+    if op[0] == "eq": return sym_eq(v, op[1], None, x) if isinstance(v, SymStr) else v == op[1]
+    if op[0] == "index":
+        if not isinstance(v, SymStr): return v[op[1]]
+        import ast as _ast
+        ev = Evaluator.__new__(Evaluator); ev.x = x; ev.steps = 0; ev.budget = 10**6
+        return ev.e_Subscript(_ast.parse(f"m[{op[1]}]", mode="eval").body, {"m": v}, None)
     ev = Evaluator.__new__(Evaluator); ev.x = x
     if isinstance(v, SymStr): return Evaluator.method(ev, v, op[0], [op[1]], {}, None)
     return getattr(v, op[0])(op[1])
@@ -55,6 +66,8 @@ def apply_conc(s, op):
         return s[b(op[1]):b(op[2])]
     if op[0] == "escape": return re.escape(s)
     if op[0] == "len": return len(s)
+    if op[0] == "eq": return s == op[1]
+    if op[0] == "index": return s[op[1]]
     return getattr(s, op[0])(op[1])
 alpha = "*a."
 Xs = ["".join(t) for n in (1,2,3) for t in itertools.product(alpha, repeat=n)]
